@@ -197,6 +197,42 @@ def emit(rc):
     if "latents" not in t or "difference(" not in t and " - " not in t:
         rc.fail(init, init.node, "observed_variables must be the model's nodes minus its latent variables", construct="observed variables")
     rc.ob("observed_variables = nodes - latents")
+    # the minimal set: a separator of the proper back-door graph that contains no descendant of X
+    f = repo.func(CI, "CausalInference.get_minimal_adjustment_set")
+    X = f.params[1]
+    sd = _defs(f)
+    desc = [c for c in ast.walk(f.node) if isinstance(c, ast.Call) and call_name(c) in ("descendants", "get_descendants", "_get_descendants")
+            and any(dotted(a) == X or (isinstance(a, (ast.List, ast.Set, ast.Tuple)) and [dotted(e) for e in a.elts] == [X]) for a in c.args)]
+    searched = {dotted(c.func.value) for c in ast.walk(f.node) if isinstance(c, ast.Call) and call_name(c) == "minimal_dseparator" and isinstance(c.func, ast.Attribute)}
+    rc.ob(f"get_minimal_adjustment_set: separator searched on {sorted(searched)}; descendant sets of {X}: {[norm(c, 60) for c in desc]}")
+    if not searched:
+        raise AnalysisError("get_minimal_adjustment_set: minimal_dseparator call not found")
+    good = False
+    for c in desc:
+        g0 = norm(_deep(c.args[0], sd), 80) if len(c.args) == 2 else "self.model"
+        if isinstance(c.func, ast.Attribute) and len(c.args) == 1:
+            g0 = norm(_deep(c.func.value, sd), 80)
+        if g0 not in ("self.model", "self.dag"):
+            rc.fail(f, c, f"the descendants of {X} are taken in `{g0}`: in the proper back-door graph the first edge of every causal path is removed, so mediators are no "
+                    "descendants there", construct="descendants taken in the back-door graph")
+            continue
+        # (a) excluded from the search: stored into the searched graph's latent set before the search; (b) subtracted from / tested against the result
+        for n in walk_no_nested(f.node):
+            if isinstance(n, (ast.Assign, ast.AugAssign)):
+                tg = n.targets[0] if isinstance(n, ast.Assign) else n.target
+                if isinstance(tg, ast.Attribute) and tg.attr == "latents" and dotted(tg.value) in searched and any(x is c or norm(x) == norm(c) for x in ast.walk(_deep(n.value, sd))):
+                    union = isinstance(n, ast.AugAssign) and isinstance(n.op, ast.BitOr) or any(isinstance(x, ast.Attribute) and x.attr == "latents" for x in ast.walk(n.value)) \
+                        or any(isinstance(x, ast.Call) and call_name(x) == "union" for x in ast.walk(n.value))
+                    if union:
+                        good = True
+                    else:
+                        rc.fail(f, n, "the latent set of the searched graph is REPLACED by the descendants: unobserved variables become candidates", construct="latents replaced")
+            if isinstance(n, ast.Return) and n.value is not None and any(norm(x) == norm(c) for x in ast.walk(_deep(n.value, sd))) and isinstance(_deep(n.value, sd), ast.BinOp):
+                rc.fail(f, n, "descendants are subtracted from the separator afterwards: what remains need not separate", construct="descendants removed after the search")
+    if not good and not any(x.func.endswith("get_minimal_adjustment_set") for x in rc.report.findings):
+        rc.fail(f, f.node, f"the minimal adjustment set is the minimal d-separator of the proper back-door graph with NO restriction to non-descendants of {X}: for X<-U->M->Y, X->M "
+                "it returns the mediator {M} for half of the node orders (the back-door criterion forbids descendants of X; adjusting for M does not give P(Y|do(X)))",
+                construct="minimal set may contain descendants of X")
 
 
 @rule("C13.route", "validators answer by d-connection tests on the right graph with the right conditioning set", floor=5)
@@ -375,6 +411,15 @@ def defuse(rc):
     _sh.defuse_rule(rc, _sh.anchor_files("C13"))
 
 MUTANTS = [
+    dict(kind="break", name="minimal-set-without-descendant-exclusion", file=CI, expect="C13.emit",
+         old="        backdoor_graph.latents = set(backdoor_graph.latents) | nx.descendants(\n            self.model, X\n        )\n", new=""),
+    dict(kind="break", name="minimal-set-descendants-in-backdoor-graph", file=CI, expect="C13.emit",
+         old="nx.descendants(\n            self.model, X\n        )", new="nx.descendants(\n            backdoor_graph, X\n        )"),
+    dict(kind="break", name="minimal-set-latents-replaced", file=CI, expect="C13.emit",
+         old="        backdoor_graph.latents = set(backdoor_graph.latents) | nx.descendants(", new="        backdoor_graph.latents = nx.descendants("),
+    dict(kind="twin", name="minimal-set-union-call", file=CI,
+         old="        backdoor_graph.latents = set(backdoor_graph.latents) | nx.descendants(\n            self.model, X\n        )\n",
+         new="        forbidden = nx.descendants(self.model, X)\n        backdoor_graph.latents = set(backdoor_graph.latents).union(forbidden)\n"),
     dict(kind="repair", name="adjustment-loop-keeps-evidence", file=CI, gone="C13.route", construct="adjustment loop drops evidence",
          old="            evidence = {**do, **adj_evidence}\n", new="            evidence = {**evidence, **do, **adj_evidence}\n"),
     dict(kind="repair", name="adjustment-validator-all-pairs", file=CI, gone="C13.route", construct="adjustment validator pairs",
